@@ -607,7 +607,9 @@ def check_roots(ctx, w: World, roots=None) -> None:
         ann = core.src(fi.node.returns).strip("'\"") if fi.node.returns is not None else ""
         from .effects import IMM_ANNOT, IMM_TUPLE_ANNOT
         imm_result = ann in IMM_ANNOT or ann in IMM_TUPLE_ANNOT
-        inner = ann[ann.index("[") + 1:-1] if ann.startswith(("List[", "Sequence[", "Tuple[")) and ann.endswith("]") else None
+        ann_n = ann.replace("typing.", "").replace("t.", "", 1) if ann.startswith(("typing.", "t.")) else ann
+        inner = ann_n[ann_n.index("[") + 1:-1] if ann_n.startswith(("List[", "Sequence[", "Tuple[", "list[", "tuple[", "Iterable[", "Collection[")) \
+            and ann_n.endswith("]") else None
         imm_elems = inner is not None and all(x.strip() in IMM_ANNOT or x.strip() in IMM_TUPLE_ANNOT or x.strip() == "..." for x in inner.split(","))
         shared = set()
         stack = list(s.ret)
